@@ -22,6 +22,8 @@ judge        : Trace_DataStore (each event is the DataStore action; observation 
                Judge_C11 (functional API: the caller's tensors, also as views of a base, before / after).
 """
 import random
+import shutil
+import tempfile
 import time
 from concurrent.futures import ThreadPoolExecutor
 
@@ -194,15 +196,14 @@ def run(tier, seed):
     quick = tier == "quick"
     t00 = time.time()
     # ---- fork the observation pool BEFORE any thread exists; then TLC runs in threads --------------
+    du.TMP_ROOT = tempfile.mkdtemp(prefix="verif_c11_")  # inherited by the forked workers; removed below
     pool = _Pool(max(1, min(NCPU, 16) - 2))
     ex = ThreadPoolExecutor(max_workers=8)
     try:
-        # the export run IS the design check of the 240 x 120 read histories (all properties, -coverage);
-        # thorough adds the same model with one functional call anywhere in the history
-        f_exp = ex.submit(check_model, "MC_DataStore", MC % (4, 0, "FALSE", "FALSE", 0, ALL_PROPS + "\nCONSTRAINT Export"), workers=1, timeout=900,
-                          require_actions=("Build", "DoGetItem"))
-        f_main = None if quick else ex.submit(check_model, "MC_DataStore", MC % (4, 1, "FALSE", "FALSE", 0, ALL_PROPS), timeout=1500,
-                                              workers=max(2, NCPU // 2), require_actions=("Build", "DoGetItem", "DoCall"))
+        # export first (it is on the critical path of the replay); the design check of the same model runs beside it
+        f_exp = ex.submit(run_tlc, "MC_DataStore", MC % (4, 0, "FALSE", "FALSE", 0, "CONSTRAINT Export"), workers=1, timeout=900)
+        f_main = ex.submit(check_model, "MC_DataStore", MC % (4, 0 if quick else 1, "FALSE", "FALSE", 0, ALL_PROPS), timeout=1500,
+                           workers=max(2, NCPU // 4), require_actions=("Build", "DoGetItem") + (() if quick else ("DoCall",)))
         f_call = ex.submit(check_model, "MC_DataStore", MC % (2, 1, "FALSE", "FALSE", 0, ALL_PROPS), timeout=900, workers=1,
                            require_actions=("Build", "DoGetItem", "DoCall"))
         f_ac1 = ex.submit(check_model, "MC_DataStore", MC % (2, 1, "TRUE", "FALSE", 0, "INVARIANT MissingOK"), timeout=900, workers=1,
@@ -224,8 +225,7 @@ def run(tier, seed):
         if len(labs) != 240 or any(t not in labs for t in hists):
             raise TLCError("case-space export incomplete: %d configurations" % len(labs))
         total_hist = sum(len(v) for v in hists.values())
-        res.add_mc("MC_DataStore 240 configurations, every read history of length <= 4 (%d maximal); case space exported" % total_hist, rx,
-                   "NothingMutated, ArgsUntouched, CacheIsCache0, ResultFunctionOfIndex, SameIndexSameSample, LenOK, MissingOK; "
+        res.add_mc("MC_DataStore export: 240 configurations, %d maximal read histories of length 4" % total_hist, rx,
                    "LAB / HIST lines printed from the states TLC reached")
         per_cfg = 7 if quick else 10 ** 9
         jobs = []
@@ -295,6 +295,8 @@ def run(tier, seed):
         raise
     finally:
         pool.close()
+        shutil.rmtree(du.TMP_ROOT, ignore_errors=True)
+        du.TMP_ROOT = None
     res.coverage["observe_wall_s"] = round(time.time() - t00, 1)
     want = sum(len(j[2]) for j in jobs)
     if len(spec_traces) != want or (not quick and want < total_hist):
@@ -361,11 +363,11 @@ def run(tier, seed):
 
     # ---- design checks (ran in the background) -------------------------------------------------
     try:
-        if f_main is not None:
-            r = f_main.result()
-            res.add_mc("MC_DataStore 240 configurations, reads<=4, one functional call anywhere", r, "same properties")
-            if r.violation:
-                raise TLCError("DataStore design check failed: %s\n%s" % (r.violation, r.out[-2500:]))
+        r = f_main.result()
+        res.add_mc("MC_DataStore 240 configurations, every read history of length <= 4%s" % ("" if quick else ", one functional call anywhere"), r,
+                   "NothingMutated, ArgsUntouched, CacheIsCache0, ResultFunctionOfIndex, SameIndexSameSample, LenOK, MissingOK")
+        if r.violation:
+            raise TLCError("DataStore design check failed: %s\n%s" % (r.violation, r.out[-2500:]))
         r = f_call.result()
         res.add_mc("MC_DataStore reads<=2, one functional call anywhere", r, "same properties")
         if r.violation:
@@ -442,6 +444,15 @@ def replay(rp, seed):
     _quiet()
     res = Result("C11")
     c = rp["case"]
+    du.TMP_ROOT = tempfile.mkdtemp(prefix="verif_c11_")
+    try:
+        return _replay(rp, c, res, du, seed)
+    finally:
+        shutil.rmtree(du.TMP_ROOT, ignore_errors=True)
+        du.TMP_ROOT = None
+
+
+def _replay(rp, c, res, du, seed):
     if c.get("type") == "call":
         recs = [r for r in du.functional_battery(c["lab"], c["anchor"], seed) if r["f"] == c["f"]]
         for k, r in enumerate(recs):
